@@ -91,13 +91,13 @@ func Indent(dst *bytes.Buffer, src []byte, prefix, indent string) error {
 func appendIndent(dst, src []byte, prefix, indent string) ([]byte, error) {
 	// In v2, only spaces and tabs are allowed, while v1 allowed any character.
 	dstLen := len(dst)
+	var replacePlaceholders func(b []byte)
 	if len(strings.Trim(prefix, " \t"))+len(strings.Trim(indent, " \t")) > 0 {
 		// Use placeholder spaces of correct length, and replace afterwards.
 		invalidPrefix, invalidIndent := prefix, indent
 		prefix = strings.Repeat(" ", len(prefix))
 		indent = strings.Repeat(" ", len(indent))
-		defer func() {
-			b := dst[dstLen:]
+		replacePlaceholders = func(b []byte) {
 			for i := bytes.IndexByte(b, '\n'); i >= 0; i = bytes.IndexByte(b, '\n') {
 				b = b[i+len("\n"):]
 				n := len(b) - len(bytes.TrimLeft(b, " ")) // len(prefix)+n*len(indent)
@@ -108,7 +108,7 @@ func appendIndent(dst, src []byte, prefix, indent string) ([]byte, error) {
 				}
 				b = b[n:]
 			}
-		}()
+		}
 	}
 
 	dst, err := jsontext.AppendFormat(dst, src,
@@ -121,6 +121,13 @@ func appendIndent(dst, src []byte, prefix, indent string) ([]byte, error) {
 		jsontext.WithIndent(indent))
 	if err != nil {
 		return dst[:dstLen], transformSyntacticError(err)
+	}
+
+	// Only the formatted output holds placeholders: replace them before
+	// the trailing whitespace of src (which may hold newlines and spaces
+	// of its own) is copied over verbatim.
+	if replacePlaceholders != nil {
+		replacePlaceholders(dst[dstLen:])
 	}
 
 	// In v2, trailing whitespace is discarded, while v1 preserved it.
